@@ -1,6 +1,7 @@
 package conc
 
 import (
+	crand "crypto/rand"
 	"fmt"
 	"sort"
 	"strings"
@@ -146,6 +147,14 @@ func Run(run *kernel.Run, p Params) {
 	run.Res.Cfg["sched"] = cfg
 	run.Res.Cfg["policy"] = kernel.PolicyNames[cfg.Policy]
 
+	// the system entropy source is a seam too: operations with rand == nil
+	// and key generation draw from a deterministic reader (the real one would
+	// make step counts, and hence schedules, differ from process to process)
+	sysSeed := t.U64("cfg", "system_entropy_seed")
+	realRand := crand.Reader
+	crand.Reader = kernel.NewSharedEntropy(sysSeed)
+	defer func() { crand.Reader = realRand }()
+
 	// ---- concurrent phase FIRST (cold objects, and cold package state in
 	// the first run of a process)
 	p.SetHook(s.Yield)
@@ -185,6 +194,9 @@ func Run(run *kernel.Run, p Params) {
 		run.Res.Probes["handoff_points_reached_by_library_goroutines"] += s.Foreign
 		run.Res.FreeRun = true
 	}
+	if s.Naps > 0 {
+		run.Res.Faults["caller_stalled_after_synchronisation_point"] += s.Naps
+	}
 	if s.SyncSwitches > 0 {
 		run.Res.Faults["switch_forced_at_synchronisation_point"] += s.SyncSwitches
 	}
@@ -223,6 +235,7 @@ func Run(run *kernel.Run, p Params) {
 	// (the counter is bumped through a //go:norace method: a library that
 	// runs goroutines of its own passes yield points on them too)
 	var soloCtr stepCounter
+	crand.Reader = kernel.NewSharedEntropy(sysSeed)
 	p.SetHook(soloCtr.inc)
 	solo := make([][]string, nTasks)
 	soloOpSteps := make([][]uint64, nTasks)
